@@ -233,20 +233,23 @@ CLAIMED["C18"] = {
             "(errno zeroed before, OSError iff the kernel reported one, carrying its errno; the value returned is the "
             "kernel's, -1 included; exact (PRIO_PROCESS, pid[, value]) pass-through); psutil_proc_ioprio_get unpacks "
             ">>13 / &0x1fff, psutil_proc_ioprio_set packs class<<13|data with no shift UB for any int and "
-            "unpack(pack(c,d)) == (c,d). Proof, Python layer: _pslinux ionice_set/ionice_get/nice_get/nice_set/rlimit/"
+            "unpack(pack(c,d)) == (c,d); psutil_proc_cpu_affinity_get: the cpu set is doubled without overflow until the "
+            "kernel accepts it, every access stays inside the allocation of the current (symbolic) size, it is freed "
+            "exactly once on every path, and by a ghost popcount invariant (count == number of set bits from cpu on) "
+            "every CPU reported has its bit set and the scan stops only when none is left. Proof, Python layer: _pslinux ionice_set/ionice_get/nice_get/nice_set/rlimit/"
             "cpu_affinity_set (validation before any native call, exact pass-through, EINVAL/ValueError diagnosis over "
             "request lists of any length by loop invariant) and the front-end nice/ionice/rlimit/cpu_affinity argument "
             "rules (level without class, [] = eligible CPUs, de-duplication).",
     "note": "'the kernel applies exactly that value and nobody else changes' is the system calls' contract: bounded live "
             "round trip on a child + bystander (every nice -20..19, class x level, CPU subsets, every RLIMIT_*) with the "
-            "extension rebuilt from the working tree. _get_eligible_cpus and psutil_proc_cpu_affinity_get are bounded "
-            "only. One known finding (range-less Cpus_allowed_list, pinned by an existing test).",
+            "extension rebuilt from the working tree. _get_eligible_cpus is bounded only; termination and completeness "
+            "of the affinity scan are not proved. One known finding (range-less Cpus_allowed_list, pinned by an existing test).",
     "ref": "DESIGN.md section 5 (C18)",
 }
 
 CLAIMED["C17"] = {
     "text": "Proof, C layer (vc/cvc.py: VCs from clang's macro-expanded AST of the working tree, bit-vectors + arrays, "
-            "z3 re-checked by cvc5) for 17 functions: psutil_users (every string read stays inside its fixed-width utmp "
+            "z3 re-checked by cvc5) for 19 functions: psutil_users (every string read stays inside its fixed-width utmp "
             "field for arbitrary record content; tuple slots user/terminal/host|localhost/started/pid, cut at field "
             "width; only USER_PROCESS), psutil_disk_partitions (slots = getmntent fields; reference ownership: no double "
             "release or use after release on any error path), psutil_convert_ipaddr (every MAC sprintf inside "
@@ -254,12 +257,14 @@ CLAIMED["C17"] = {
             "signed overflow combining the speed words, speed in [0, INT_MAX]), proc_cpu_affinity_set (every item an error "
             "or a store inside cpu_set_t), ioprio_get/set, getpriority/setpriority, check_pid_range, pid_exists, "
             "set_debug, getpagesize, linux_sysinfo, append_flag: no signed overflow, shift UB, out-of-bounds access or "
-            "ownership error for any argument; NULL iff an exception is set. Proof, Python layer: _pslinux.users / "
+            "ownership error for any argument; NULL iff an exception is set; psutil_net_if_addrs (getifaddrs list walk: "
+            "tuple slots per node - name, family, address, netmask, broadcast only under IFF_BROADCAST, ptp only under "
+            "IFF_POINTOPOINT - and reference ownership on every error path, psutil_convert_ipaddr applied through its own "
+            "contract); psutil_proc_cpu_affinity_get (see C18). Proof, Python layer: _pslinux.users / "
             "disk_partitions (keep iff all or device and disk-backed fs type) / net_if_stats (ENODEV skipped).",
     "note": "Whole-extension memory safety is a bounded stand-in: ASan+UBSan build of the working tree's C files, "
             "argument grid over every mod_methods entry (~9000 calls), generated utmp and mounts files with an independent "
-            "struct/escape decoding as oracle, injected ethtool answers. psutil_net_if_addrs, psutil_net_if_flags and "
-            "psutil_proc_cpu_affinity_get are covered by the sanitizer grid only. Python loops unrolled for <= 2 records. "
+            "struct/escape decoding as oracle, injected ethtool answers. psutil_net_if_flags is covered by the sanitizer grid only. Python loops unrolled for <= 2 records. "
             "Kernel agreement of the interface list is not within reach.",
     "ref": "DESIGN.md section 5 (C17)",
 }
